@@ -405,7 +405,7 @@ func (c *copier) copy(ctx context.Context, src, srcComponents, target string, ov
 		if err != nil {
 			return errors.Wrap(err, "failed to get hardlink")
 		}
-		if link != "" {
+		if link != "" && link != target {
 			if err := os.Link(link, target); err != nil {
 				return errors.Wrap(err, "failed to create hard link")
 			}
